@@ -10,7 +10,8 @@
 (*  {"t":2,"secret":3,"ids":[1,6],"out":"ok"|"refused"|"panic","vs":[3,1,4],"shares":[1,3],      *)
 (*   "ver":[[kind,i,shareThr,id,share,thr,vs,res],...],   kind: own | id | share | commit | shape *)
 (*   "rec":[[idx,res],...],              idx: indices into shares, res = -1 for an error return  *)
-(*   "recx":[[thr0,xs,ss,res],...]}      ReConstruct on arbitrary (id, share) lists              *)
+(*   "recx":[[thr0,xs,ss,res],...],      ReConstruct on arbitrary (id, share) lists              *)
+(*   "x":0}                              1 marks a line corrupted by the self test (see TraceInv) *)
 (*                                                                                             *)
 (* A line is explained iff                                                                       *)
 (*   - the outcome of Create is the one FeldmanVSS!Create allows: "refused" exactly when Refuses, *)
@@ -91,8 +92,10 @@ TraceNext ==
   /\ UNCHANGED <<p, c>>
 TraceSpec == TraceInit /\ [][TraceNext]_tvars
 
-TraceInv == LineOK(TraceLog[l]) \/ (PrintT(<<"TRACE_REJECT", l>>) /\ FALSE)
-
-\* self test of the binding: the harness corrupts one logged value per line; no such line may be explained
-TraceRejectInv == ~LineOK(TraceLog[l]) \/ (PrintT(<<"TRACE_ACCEPTED_CORRUPT", l>>) /\ FALSE)
+\* Lines with x = 1 were corrupted on purpose by the harness (one logged value changed, shape preserved): the self test
+\* of the binding demands that none of them is explained.
+TraceInv ==
+  LET e == TraceLog[l]
+  IN IF e.x = 1 THEN ~LineOK(e) \/ (PrintT(<<"TRACE_ACCEPTED_CORRUPT", l>>) /\ FALSE)
+                ELSE LineOK(e) \/ (PrintT(<<"TRACE_REJECT", l>>) /\ FALSE)
 =============================================================================
